@@ -1,5 +1,6 @@
 import SignaloModel.Proofs.BridgeMean
 import SignaloModel.Proofs.MeanProofs
+import SignaloModel.Proofs.MeanFromState
 /-!
 # C03 — Moving average equals the mean of the last min(k,N) samples
 
@@ -8,6 +9,8 @@ The property theorems for C03: `#check` prints each statement, `#print axioms` i
 -/
 open SignaloModel
 
+#check @Registry.mean_from_inv
+#check @Registry.mean_inject_full_run
 #check @Registry.mean_registry_correct
 #check @Registry.mean_registry_forgets
 #check @Registry.mean_registry_const
@@ -15,6 +18,8 @@ open SignaloModel
 #check @Sinks.minv_step
 #check @Sinks.mean_forgets
 
+#print axioms Registry.mean_from_inv
+#print axioms Registry.mean_inject_full_run
 #print axioms Registry.mean_registry_correct
 #print axioms Registry.mean_registry_forgets
 #print axioms Registry.mean_registry_const
